@@ -62,7 +62,7 @@ CHECKS = {
     "C18": ("proof", "Lean theorems: linear_in_eps, residual (X_t - A X_{t-1} = eps w_t), support on the transposed graph, radius_scaling for any eigen-pair, Poisson rate formula and floor. Tie: recording generator shim (every normal/uniform/Poisson draw and the rate argument of every rng.poisson call observed) replayed through the exact model; determinism and global-RNG checks.",
             "Spectral radius is LAPACK's; conditional mean of NumPy's Poisson sampler trusted (+ pooled z-test, measurement).",
             "Lean 4 proof + recorded-draw replay through the exact model"),
-    "C19": ("proof", "Lean theorems: logistic_mem, step_mem, orbit_mem (induction over t, any n, any non-negative matrix with row sums <= 1), rowNormalise_ok; negative witness for the pre-fix update. Tie: direct range check of every value + exact one-step replay of consecutive rows through the model; returned matrix vs model normalisation of the Erdos-Renyi adjacency.",
+    "C19": ("proof", "Lean theorems: logistic_mem, step_mem, orbit_mem (induction over t, any n, any non-negative matrix with row sums <= 1), rowNormalise_ok; negative witness for the pre-fix update; the map logistic_map is REGENERATED from the source on every run and proved equal to the model's logistic for all rationals (ring). Tie: direct range check of every value + exact one-step replay of consecutive rows through the model; returned matrix vs model normalisation of the Erdos-Renyi adjacency.",
             "Theorems over exact rationals; rounding covered by the direct range check on the float output.",
             "Lean 4 invariant proof + one-step simulation check"),
     "C20": ("other", "Partial: Lean theorems seedOrder_perm (any community output), optimise_perm (every iteration budget, move and accept stream), equispaced distinct positions, normalisation ranges (no division by zero), cmap index, arc radius total. Tie: real optimiser replayed on its own recorded move stream; real plot_causal_network on random multigraphs x option combinations: returns (Figure, Axes), no exception, graph deep-equal before/after, positions = model positions, same seed same order.",
